@@ -63,6 +63,18 @@ theorem cdelta_eq (m : Int) (b : EVal) : eq (.cdelta m) b = true ↔ b = .cdelta
 example : eq (.cell (.int 1)) (.cdelta 12) = false ∧ eq (.cdelta (12 * 1)) (.cdelta 12) = true ∧ eq (.cdelta 12) (.cell (.int 12)) = false
     ∧ eq (.cdelta 12) (.tdelta 12) = false ∧ eq (.arr [1] [.cdelta 12]) (.arr [1] [.cell (.int 12)]) = false := by decide
 
+/-- an `np.datetime64` in `ps` / `fs` / `as` (review v5, fix C14-F10; `fdt a` = the instant in attoseconds) equals exactly the fine `np.datetime64` of the same
+instant: never a `datetime` / `Timestamp` / coarser `np.datetime64` (the `dt` cell; before the fix `Timestamp.__eq__` truncated to ns, so `datetime(1970,1,1)`,
+`Timestamp(0)` and `datetime64(0,'ps')` formed an intransitive chain and 0 ps and 1 ps were both `eq` to `Timestamp(0)`), never a number, a date or a container -/
+theorem fdt_eq (a : Int) (b : EVal) : eq (.fdt a) b = true ↔ b = .fdt a := by
+  cases b <;> simp [eq, EVal.norm, eqN] <;> exact eq_comm
+
+/-- the chain of review v5 on the model: the Timestamp equals the datetime (one `dt` cell), neither equals the picosecond value at the same instant;
+1 ps is 1000 fs; 0 ps and 1 ps differ; cell by cell in arrays and lists -/
+example : eq (.cell (.dt 0)) (.fdt 0) = false ∧ eq (.fdt 0) (.cell (.dt 0)) = false ∧ eq (.fdt (1000000 * 1)) (.fdt (1000 * 1000)) = true
+    ∧ eq (.fdt 0) (.fdt 1000000) = false ∧ eq (.fdt 0) (.cell (.int 0)) = false ∧ eq (.fdt 0) (.date 0) = false
+    ∧ eq (.arr [1] [.fdt 0]) (.arr [1] [.cell (.dt 0)]) = false ∧ eq (.list [.fdt 0]) (.list [.fdt 0]) = true := by decide
+
 /-- a date equals exactly that date: not the datetime (`Timestamp`, `np.datetime64` of any unit) at its midnight -/
 theorem date_eq (d : Int) (b : EVal) : eq (.date d) b = true ↔ b = .date d := by
   cases b <;> simp [eq, EVal.norm, eqN] <;> exact eq_comm
